@@ -4,7 +4,7 @@ from lib import TieCheck
 class C09(TieCheck):
     pid = "C09"
     area = "Route"
-    props = ["Props_C09.v", "Props_C09_host.v", "Props_C09_guard.v"]
+    props = ["Props_C09.v", "Props_C09_host.v", "Props_C09_guard.v", "Props_C09_e2e.v"]
     coq_targets = ["Corr.vo"]
     harness = "c01"
     extra_trust = ["model M1: coq/Route/Lookup.v lbd/lookup_by_domain/roots_lookup; specification: Spec.spec_lookup (whole-host match, path-only fallback)",
